@@ -171,4 +171,4 @@ def run(ctx):
         cov["coqchk"] = o[-600:]
         if rc != 0:
             aud["problems"].append("coqchk failed: " + o[-500:])
-    return C.finish(ctx, PROPS, aud, cov, uniq, ties[:20], ASSUME)
+    return C.finish(ctx, PROPS, aud, cov, uniq, ties[:20], ASSUME, level="translation_validation")
